@@ -159,6 +159,9 @@ def ref_step(desc, vals, pars, opts=None):
     for l in desc["links"]:
         s = vals[l["id"]]
         res.q[l["id"]] = [s["rho"][i] * s["v"][i] * l["lam"] for i in range(l["N"])]
+        if l.get("user_cap") is not None:  # user-defined link kind: segment flows capped
+            res.q[l["id"]] = [min(x, l["user_cap"]) for x in res.q[l["id"]]]
+            br.append(("user.link", "capped-flow"))
 
     # --- origin flows
     for o in desc["origins"]:
@@ -171,6 +174,9 @@ def ref_step(desc, vals, pars, opts=None):
         site = "org:" + o["kind"] + ":" + str(o.get("eq"))
         if o["kind"] == "ideal":
             res.qo[oid] = res.q[lk["id"]][0]
+            if o.get("user_q") is not None:  # user-defined boundary origin: prescribed flow
+                res.qo[oid] = o["user_q"]
+                br.append(("user.origin", "prescribed-flow"))
             br.append((site, "ideal"))
             continue
         ov = vals[oid]
@@ -244,7 +250,10 @@ def ref_step(desc, vals, pars, opts=None):
         if o is not None:
             Q += res.qo[o["id"]]
         Qn[n] = Q
-        if nin == 0:
+        if nin == 0 and o is not None and o.get("user_v") is not None:
+            Vn[n] = o["user_v"]  # user-defined boundary origin: prescribed upstream speed
+            br.append(("user.origin", "prescribed-speed"))
+        elif nin == 0:
             Vn[n] = None  # own first-segment speed of the leaving link
         elif nin == 1:
             Vn[n] = vals[ins[n][0]["id"]]["v"][-1]
